@@ -876,6 +876,14 @@ class Validator(SymmetricAdapter):
             raise ValidationError("object failed validation: %s" % (obj,), path=path)
         return obj
 
+    def _build(self, obj, stream, context, path):
+        obj2 = self._encode(obj, context, path)
+        buildret = self.subcon._build(obj2, stream, context, path)
+        if obj is None and buildret is not None:
+            # subcon made the value up (Default, Rebuild), validate what was actually built
+            self._decode(buildret, context, path)
+        return obj
+
     def _validate(self, obj, context, path):
         raise NotImplementedError
 
